@@ -27,6 +27,7 @@ type Svc struct {
 	// Sched mode: ask the explorer for each request's outcome.
 	Outcomes   func(name string) []string // e.g. {"ok","fail","hang"}; nil = scripted by fail map
 	Seams      bool                       // park at a scheduler seam before answering
+	Latency    time.Duration              // every request takes this long (virtual time) before it is answered
 	now        func() time.Duration
 	Dead       bool
 	Release    chan struct{} // closed at teardown: hanging requests return
@@ -207,6 +208,9 @@ func (s *Svc) answer(ctx context.Context, name string, cond bool, old uint32) (*
 			done("hang-released")
 			return nil, errSvc
 		}
+	}
+	if s.Latency > 0 {
+		time.Sleep(s.Latency)
 	}
 	if s.Seams {
 		sched.Seam("svc.answer(" + name + ")")
